@@ -3,6 +3,7 @@ package sim
 import (
 	"encoding/hex"
 	"fmt"
+	"sync"
 )
 
 // Payload is a recipe for a byte string, kept small so that replay files stay
@@ -37,6 +38,8 @@ func (p Payload) Len() int {
 		return len(p.Hex) / 2
 	case "surprise":
 		return p.A + p.N + surpriseTail
+	case "trained":
+		return p.A + trainedStages() + p.N + 273 + 300
 	}
 	return p.N
 }
@@ -172,6 +175,8 @@ func (p Payload) Bytes() []byte {
 			d = append(d, r.Bytes(274)...)
 		}
 		return append(d, r.Bytes(300)...)
+	case "trained":
+		return trainedPayload(NewRng(p.Seed), p.A, p.N)
 	case "dup":
 		x := p.Parts[0].Bytes()
 		return append(append(make([]byte, 0, 2*len(x)), x...), x...)
@@ -190,6 +195,68 @@ func (p Payload) Bytes() []byte {
 	}
 	panic("sim: unknown payload kind " + p.Kind)
 }
+
+// trainedPayload: A bytes of noise (a caller flushes after them); then stages
+// of 160 matches each that drive the adaptive probabilities of the length
+// tree and of the distance-slot tree as far as they go in one direction -
+// lengths 272, 270, 266, 258 at slots 30, 28/29, 24-27, 16-23; length 250 at
+// distances below 256; lengths 210, 146, 18, 10, 5 at distances above 64 KiB -
+// then N bytes of noise, and one match of length 273 at distance 56001 that
+// takes the unexpected branch in every node: about the most expensive single
+// operation an encoder can be made to emit (the construction is due to an
+// independent reader of property C08, see DESIGN.md §6 #28). N moves it byte
+// by byte relative to the compressed-size limit of the chunk it falls into.
+func trainedPayload(r *Rng, prefix, filler int) []byte {
+	const n = 160
+	d := r.Bytes(prefix)
+	copyFrom := func(dist, k int, sep bool) {
+		for i := 0; i < k; i++ {
+			d = append(d, d[len(d)-dist])
+		}
+		for j := 0; sep && j < 2; j++ {
+			b := byte(r.Intn(256))
+			if b == d[len(d)-dist] {
+				b ^= 0x5a
+			}
+			d = append(d, b)
+		}
+	}
+	for _, s := range [][2]int{{272, 49000}, {270, 32000}, {266, 16000}, {258, 4000}} {
+		dist := s[1]
+		for k := 0; k < n; k++ {
+			copyFrom(dist, s[0], true)
+			dist -= 3
+		}
+	}
+	ds := []int{70, 90, 110, 130, 150, 170}
+	for k := 0; k < n; k++ {
+		dist := ds[k%len(ds)]
+		d = append(d, r.Bytes(dist)...)
+		copyFrom(dist, 250, true)
+	}
+	cursor := 16
+	for _, l := range []int{210, 146, 18, 10, 5} {
+		for k := 0; k < n; k++ {
+			copyFrom(len(d)-cursor, l, true)
+			cursor += l + 5
+		}
+	}
+	d = append(d, r.Bytes(filler)...)
+	copyFrom(56001, 273, false)
+	return append(d, r.Bytes(300)...)
+}
+
+// trainedStages is the number of bytes the training stages of a "trained"
+// payload take (it does not depend on the seed).
+func trainedStages() int {
+	trainedOnce.Do(func() { trainedLen = len(trainedPayload(NewRng(1), 60000, 0)) - 60000 - 273 - 300 })
+	return trainedLen
+}
+
+var (
+	trainedOnce sync.Once
+	trainedLen  int
+)
 
 // surpriseTail is what a "surprise" payload appends to its A+N bytes of noise.
 const surpriseTail = 150*6 + 160 + 274 + 300
